@@ -115,16 +115,16 @@ def run(prop, tier, seed):
     items = []
     for fl in FLAVOURS:
         if tier == 'quick':
-            items += list(scenarios(fl, 3, 2, False))
-        else:
             items += list(scenarios(fl, 3, 3, False))
+        else:
+            items += list(scenarios(fl, 3, 4, False))
             items += list(scenarios(fl, 3, 2, True))
     cells = sorted({str(c) for c, _ in items})
     return scenario_check(
         prop, tier, seed, items, evaluate, sig_of,
-        bounds={'nodes': 3, 'max_edges': 2 if tier == 'quick' else 3,
+        bounds={'nodes': 3, 'max_edges': 3 if tier == 'quick' else 4,
                 'handles': '3 node handles, optional container (members {0,1} or all), optional kept result of bfs path / dfs search / dfs cycle / preorder nodes / postorder edges',
-                'drop_orders': 'rotations + reverse' if tier == 'quick' else 'rotations + reverse (<=3 edges), all permutations (<=2 edges)',
+                'drop_orders': 'rotations + reverse' if tier == 'quick' else 'rotations + reverse (<=4 edges), all permutations (<=2 edges)',
                 'outside': 'more handles per node; results of pfs and of filtered searches; drop during a running traversal'},
         assumptions=['Rc/Arc/Weak counting semantics as documented by std (strong/weak counts, value dropped when strong reaches 0)',
                      'native replays observe releases through a drop-counting node payload type'],
